@@ -19,6 +19,7 @@ import (
 	storetypes "github.com/cosmos/cosmos-sdk/store/types"
 	sdk "github.com/cosmos/cosmos-sdk/types"
 	bank "github.com/cosmos/cosmos-sdk/x/bank/types"
+	gethabi "github.com/ethereum/go-ethereum/accounts/abi"
 	gethcommon "github.com/ethereum/go-ethereum/common"
 	"github.com/ethereum/go-ethereum/core/vm"
 	"github.com/ethereum/go-ethereum/crypto"
@@ -156,6 +157,27 @@ func newWorld(t *testing.T) *world {
 			must("sendToEvm setup", err)
 		}
 		must("commit", sdb.Commit())
+		// (a StateDB admits at most 10 precompile calls: continue on a fresh one)
+		sdb = deps.EvmKeeper.NewStateDB(deps.Ctx, statedb.NewEmptyTxConfig(gethcommon.Hash{}))
+		evmObj = deps.EvmKeeper.NewEVM(deps.Ctx, evmtest.MOCK_GETH_MESSAGE, deps.EvmKeeper.GetEVMConfig(deps.Ctx), evm.NewNoOpTracer(), sdb)
+		// the ERC20-born denom's bank supply is lifted to 2^255 (held by `other`) and the sender holds
+		// 2^255 of the ERC20 again: its owner mints, sends to the bank side, burns the escrow, mints again
+		half := new(big.Int).Lsh(big.NewInt(1), 255)
+		erc := embeds.SmartContract_ERC20Minter.ABI
+		for _, step := range []struct {
+			what string
+			to   gethcommon.Address
+			in   []byte
+		}{
+			{"whale mint", w.ercErc20, mustPack(erc, "mint", deps.Sender.EthAddr, half)},
+			{"whale sendToBank", precompileAddrs[0], mustPack(embeds.SmartContract_FunToken.ABI, "sendToBank", w.ercErc20, half, w.other.Hex())},
+			{"whale burn escrow", w.ercErc20, mustPack(erc, "burnFromAuthority", evm.EVM_MODULE_ADDRESS, half)},
+			{"whale mint again", w.ercErc20, mustPack(erc, "mint", deps.Sender.EthAddr, half)},
+		} {
+			_, _, err := evmObj.Call(vm.AccountRef(deps.Sender.EthAddr), step.to, step.in, 5_000_000, big.NewInt(0))
+			must(step.what, err)
+		}
+		must("commit", sdb.Commit())
 	}
 	// wasm contract
 	bz, err := os.ReadFile(filepath.Join(repoRoot(), "x/evm/precompile/test/hello_world_counter.wasm"))
@@ -218,6 +240,14 @@ func (w *world) digest(ctx sdk.Context, skip func(store string, key []byte) bool
 		fmt.Fprintf(h, "#%s:%d\n", k.Name(), n)
 	}
 	return hex.EncodeToString(h.Sum(nil))[:16]
+}
+
+func mustPack(a *gethabi.ABI, name string, args ...interface{}) []byte {
+	bz, err := a.Pack(name, args...)
+	if err != nil {
+		panic(err)
+	}
+	return bz
 }
 
 func word(b *big.Int) []byte { return gethcommon.LeftPadBytes(b.Bytes(), 32) }
